@@ -13,7 +13,32 @@ READER_NOTE = ("Trusted: Coq kernel (Print Assumptions: closed under the global 
                "parse_protocol_only); extraction (ExtrOcamlBasic only) + OCaml driver; BytesIO / scripted socket as "
                "transports.")
 
+MSG_NOTE = ("Trusted: Coq kernel (Print Assumptions: closed under the global context); gen/Tables.v and gen/Consts.v are "
+            "regenerated from /repo by harness/translate.py on every run (tables by import-and-walk, code constants by "
+            "fail-closed AST templates, plus an AST digest of every modelled function as a drift detector); the "
+            "hand-written Gallina model of UBXMessage / ubxvariants / ubxhelpers (coq/model/{Types,PyFloat,Walk,Msg}.v) "
+            "is tied to the code by differential runs of the extracted model (PARSE/BUILD/CONSTRUCT/CFG* commands; "
+            "validated on >200k cases with zero differences); CPython int/bytes/struct/float semantics as modelled "
+            "(floats: Coq.Floats.SpecFloat, bit-exact); the executable model declines (EOther) when a group repeat "
+            "count exceeds its budget of 6000 — such cases are counted, not compared.")
+
 CHECKS = {
+    "C01": dict(
+        technique="Coq proof (parse of a well-formed frame stores class/id/payload verbatim and recomputes length and checksum; repr re-construction) + extracted-model correspondence incl. eval(repr)",
+        text="C01_roundtrip: for every well-formed frame (any class/id, payload, length), msgmode incl. SETPOLL, "
+             "validate and bitfield setting, a returned message serializes to the input and its class, id, length and "
+             "payload are the frame's. C01_repr: the message eval(repr(m)) constructs serializes identically. "
+             "C01_repr_total_partial: that re-construction succeeds (proved for parsebitfield=True; False by "
+             "correspondence). Python's repr/eval text is exercised, not modelled.",
+        note=MSG_NOTE, ref="DESIGN.md §6 C01"),
+    "C04": dict(
+        technique="Coq proof (constructor postcondition + payload byte-ness by walk invariant; textbook Fletcher sums) + finite table obligation + correspondence over all routes",
+        text="C04_wellformed: for all three constructor routes (hence the config helpers), any message returned "
+             "serializes to a well-formed frame, with the checksum stated as the closed-form 8-bit Fletcher sums. "
+             "C04_accepted_partial: accepted by parse in the same mode (no-payload/raw-payload routes proved; keyword "
+             "route by correspondence). C04_addressing: names/ints/bytes agree for every message id with a "
+             "definition (finite, whole table). Known finding: wrong-length C values (see C15).",
+        note=MSG_NOTE, ref="DESIGN.md §6 C04"),
     "C05": dict(
         technique="Coq proof (soundness/completeness of checksum validation over all byte strings) + extracted-model correspondence",
         text="Theorems over all byte strings: whatever UBXReader.parse's validation accepts is a well-formed frame "
@@ -58,6 +83,15 @@ CHECKS = {
              "with parsing=False the raw sequence is unchanged (over streams whose framed candidates are accepted) and "
              "every parsed value is None.",
         note=READER_NOTE, ref="DESIGN.md §6 C11"),
+    "C13": dict(
+        technique="Coq proof (immutability flag set on every constructor path) + purity by construction; runtime part by fd-level capture, table digests, histories and threads",
+        text="C13_setattr / C13_delattr / C13_parsed_immutable: every attribute assignment or deletion on any "
+             "constructed or parsed message raises UBXMessageError and yields no new state. Absence of output and of "
+             "table mutation, history and thread independence: by construction in the model (pure functions over "
+             "immutable tables); for the implementation they are checked at run time (fd-level capture, structural "
+             "digests, probe set after random histories and in 8 concurrent threads) — partial: interleavings are "
+             "sampled.",
+        note=MSG_NOTE, ref="DESIGN.md §6 C13"),
     "C12": dict(
         technique="Coq proof (list induction over the framing trace for the three error policies) + correspondence incl. handler calls and raised exception",
         text="C12_ignore_log, C12_handler (handler called exactly once per rejection, in order, with that exception, "
